@@ -80,7 +80,7 @@ def run(ctx: Ctx):
         )
     ctx.assume("ordering contract of ndarray.partition on complex arrays (lexicographic, NaN last) is external (assumed)")
     ctx.trust("numpy.quantile(method='linear') as the specification", "ndarray.partition (complex)", "z3 / cvc5")
-    return "other", ("Mixed: only the planning clause (order statistics run blockwise or are refused) is proved; the quantile kernel is outside the VC generator's reach and its contract against numpy.quantile is a bounded stand-in. " + note)
+    return "other", ("Mixed: the planning clause (order statistics run blockwise or are refused) and the interpolation step _lerp are proved; the rest of the quantile kernel is outside the VC generator's reach and its contract against numpy.quantile is a bounded stand-in. " + note)
 
 
 def _case_of(payload):
